@@ -2,6 +2,7 @@
 
 use crate::env::{self, *};
 use crate::mapdrv::MapDrv;
+use crate::setdrv::SetDrv;
 use crate::trace::{Event, Tracer};
 use rand::rngs::SmallRng;
 use rand::{Rng, SeedableRng};
@@ -121,6 +122,20 @@ pub fn mix_table(mix: &str) -> Vec<(&'static str, u32)> {
             ("with_capacity", 3), ("new", 1), ("clear", 2), ("drain", 2), ("try_reserve", 6), ("e_or_insert", 4),
             ("rc_or_insert", 3),
         ],
+        "set" => vec![
+            ("insert", 28), ("remove", 22), ("replace", 6), ("take", 6), ("get", 5), ("contains", 4),
+            ("get_or_insert", 6), ("get_or_insert_with", 6), ("s_entry_insert", 3), ("s_entry_or_insert", 3),
+            ("s_entry_remove", 4), ("s_entry_get", 2), ("s_entry_into_value", 2), ("extend", 2), ("retain", 2),
+            ("extract_if", 2), ("drain", 1), ("iter", 4), ("into_iter", 1), ("shrink_to_fit", 1), ("reserve", 1),
+            ("shrink_to", 1), ("clear", 1),
+        ],
+        "setalg" => vec![
+            ("insert", 24), ("remove", 16), ("replace", 2), ("take", 2), ("union", 6), ("intersection", 6),
+            ("difference", 6), ("symmetric_difference", 6), ("is_subset", 4), ("is_superset", 3), ("is_disjoint", 4),
+            ("eq", 4), ("op_or", 2), ("op_and", 2), ("op_xor", 2), ("op_sub", 2), ("or_assign", 3), ("and_assign", 3),
+            ("xor_assign", 4), ("sub_assign", 4), ("clone", 2), ("clone_from", 3), ("clear", 1), ("shrink_to_fit", 1),
+            ("extend", 3), ("retain", 1), ("drain", 1),
+        ],
         "wide" => {
             let mut v = vec![];
             for m in ["basic", "entry", "iter", "many", "cap"] {
@@ -207,8 +222,13 @@ impl OpGen {
                 ev.n = rng.random_range(0..3);
                 ev.j = if rng.random_range(0..2) == 0 { -1 } else { rng.random_range(0..6) };
             }
-            "clone" | "clone_from" | "eq" => {
+            "clone" | "clone_from" | "eq" | "is_subset" | "is_superset" | "is_disjoint" | "union" | "intersection"
+            | "difference" | "symmetric_difference" | "op_or" | "op_and" | "op_xor" | "op_sub" | "or_assign" | "and_assign"
+            | "xor_assign" | "sub_assign" => {
                 ev.u = if self.nt > 1 { 3 - t } else { t };
+            }
+            "get_or_insert_with" => {
+                ev.n = if rng.random_range(0..5) == 0 { rng.random_range(0..self.nkeys) as i64 } else { ev.k };
             }
             "get_many_mut" | "get_many_kv_mut" => {
                 let n = rng.random_range(0..5);
@@ -305,6 +325,50 @@ pub fn finish(tr: &mut Tracer) -> i32 {
     0
 }
 
+fn run_set<K: KeyT>(sc: &Scen, seed: u64, tr: &mut Tracer) -> i32
+where
+    for<'a> K: From<&'a K::Q>,
+{
+    let mut rng = SmallRng::seed_from_u64(seed ^ 0x9E37_79B9_7F4A_7C15);
+    let nt = 3usize;
+    env::reset_all();
+    let p1 = make_plan(&sc.plan, sc.nkeys, &mut rng);
+    let p2 = make_plan(sc.opt("plan2").unwrap_or(&sc.plan), sc.nkeys, &mut rng);
+    env::with(|e| e.plans = vec![p1, p2]);
+    let w = hashbrown::verif::GROUP_WIDTH;
+    let (es, _) = hashbrown::verif::table_layout::<(K, ())>();
+    let ea = std::mem::align_of::<(K, ())>();
+    tr.reset("set", &sc.name(), w, es, ea, std::mem::needs_drop::<K>(), K::TRACKED, nt, "lawful", seed);
+    let mut drv: SetDrv<K> = SetDrv::new(nt, w);
+    for t in 1..=nt {
+        let mut ev = Event::new("new", t);
+        ev.n = if t == 2 { 1 } else { 0 };
+        drv.exec(ev, tr);
+    }
+    let gen = OpGen::new(&sc.mix, sc.nkeys, 2);
+    for _ in 0..sc.ops {
+        let ev = gen.gen(&mut rng, &|_t, _c| false);
+        drv.exec(ev, tr);
+    }
+    for t in 1..=nt {
+        drv.exec(Event::new("drop", t), tr);
+    }
+    finish(tr)
+}
+
+macro_rules! dispatch_set {
+    ($layout:expr, $f:ident, $($arg:expr),*) => {
+        match $layout {
+            "k8t" => $f::<Key>($($arg),*),
+            "k1" => $f::<K1>($($arg),*),
+            "k2" => $f::<K2>($($arg),*),
+            "k4" => $f::<K4>($($arg),*),
+            "k8" => $f::<K8>($($arg),*),
+            other => panic!("unknown set layout {}", other),
+        }
+    };
+}
+
 macro_rules! dispatch_map {
     ($layout:expr, $f:ident, $($arg:expr),*) => {
         match $layout {
@@ -328,6 +392,7 @@ pub fn drive(out: &str, seed: u64, scens: &[String]) -> i32 {
         let sseed = seed.wrapping_mul(1_000_003).wrapping_add(i as u64);
         let rc = match sc.kind.as_str() {
             "map" => dispatch_map!(sc.layout.as_str(), run_map, &sc, sseed, &mut tr),
+            "set" => dispatch_set!(sc.layout.as_str(), run_set, &sc, sseed, &mut tr),
             other => panic!("unknown scenario kind {}", other),
         };
         if rc != 0 {
